@@ -8,7 +8,9 @@ RULE = ("Design models: TomtomNull.tla — the code's null-distribution algorith
         "TLC computes best score, admissible (offset, overlap, strand) set, exact p-value (brute-force enumeration of column "
         "draws, strand merge) and the monotonicity of the integeriser against exact squared distances; the implementation's "
         "score must be equal, its alignment admissible, its p-value within 1e-9. Thorough adds lengths up to 25 (scores and "
-        "alignments only). distinct_nontrivial = compared (query, target) pairs whose lengths differ or that have ties.")
+        "alignments only). Where the column hash is injective the same pairs are recomputed with n_target_bins=100, with the target "
+        "list reversed and with reverse-complemented targets, one call after the other in the same process, and must reproduce the "
+        "validated scores and p-values. distinct_nontrivial = compared (query, target) pairs whose lengths differ or that have ties.")
 EXHAUSTIVE = False
 TOL = 1e-9
 
@@ -46,6 +48,11 @@ def run(ctx):
             ctx.violation("M3", "integerised column similarity is not monotone in Euclidean distance", info, cls="monotone")
         if c["rc"] and not (c.get("rc_p_same", True) and c.get("rc_score_same", True)):
             ctx.violation("M3", "reverse-complementing the targets changed a score or p-value", info, cls="rc-invariance")
+        st["hashed_cases"] = st.get("hashed_cases", 0) + c.get("hashed", 0)
+        for name, what in (("hash_same", "with column hashing (injective here)"), ("hash_rev_same", "with column hashing and the target list reversed"),
+                           ("hash_rc_same", "with column hashing and reverse-complemented targets")):
+            if not c.get(name, True):
+                ctx.violation("M3", "scores / p-values %s differ from the reference-validated result of the same pairs" % what, info, cls=name)
         for t, spec in enumerate(o["per"]):
             st["pairs"] += 1
             adm = [tuple(a) for a in spec["adm"]]
